@@ -315,6 +315,18 @@ def gen_cases(rng, tier):
     for text in ("Type.varint == 7", "Type.string == 'abc'", "any(f.name == 'b' for f in fields('varint'))", "Type.varint > 5 or r.idx == 0"):
         for engine in ("interp", "compiled"):
             cases.append({"kind": "procorder", "records": col, "selector": text, "engine": engine})
+    # grouped records of DIFFERENT compositions (all groups are instances of one class): which fields `Type.<t>` stands for
+    # is a matter of the record at hand, not of the first group the process saw
+    GA = ["t/ga", [["varint", "idx"], ["string", "alpha"]]]
+    GB = ["t/gb", [["varint", "idx"], ["string", "beta"], ["varint", "extra"]]]
+    ga = lambda i, t: ["rec", GA, [V.I(i), V.S(t)], G0]                # noqa: E731
+    gb = lambda i, t, e: ["rec", GB, [V.I(i), V.S(t), V.I(e)], G0]     # noqa: E731
+    grp = [["grouped", "grp/p", [ga(0, "zz")]], ["grouped", "grp/p", [gb(1, "needle", 7)]],
+           ["grouped", "grp/p", [ga(2, "needle")]], ["grouped", "grp/p", [gb(3, "zz", 1), ga(4, "zz")]],
+           ["grouped", "grp/q", [gb(5, "zz", 7), ga(6, "needle")]]]
+    for text in ("Type.string == 'needle'", "'needle' in Type.string", "Type.varint == 7", "Type.varint > 5 and Type.string == 'zz'"):
+        for engine in ("interp", "compiled"):
+            cases.append({"kind": "procorder", "records": grp, "selector": text, "engine": engine})
     pth = [["rec", FAM_C, [V.I(i), ["ip", "1.2.3.4"], p_, ["digest", [None, None, None]], V.S("u"), V.S("n")], G0]
            for i, p_ in enumerate([["path", "posix", V.enc_str("/var/log/syslog")], ["path", "windows", V.enc_str("c:\\tmp\\x")],
                                    ["path", "posix", V.enc_str("c:/tmp/x")]])]
